@@ -172,6 +172,7 @@ func c14(c *core.Check) {
 	c14blackStar(c)
 	c14descUnwrapped(c)
 	c14emptySets(c)
+	c14closedSets(c)
 }
 
 // newPathTokenTotal: the panic in newPathToken's default arm is unreachable: every call passes a constant pathType that
